@@ -476,13 +476,17 @@ func (e *Env) ident(name string) EVal {
 		}
 		efail("no captured variable %q", base)
 	}
-	// local variable of the current frame
-	if e.fr != nil {
-		if a := localAlloc(e.fr.Fn, name); a != nil {
-			if av, ok := e.fr.Vals[a]; ok {
+	// local variable of the current frame, or of a frame that encloses it at run time
+	// (the function whose contract this is, when the clause is evaluated at a site
+	// inside a helper or literal executed in place): the innermost frame that knows
+	// the name wins
+	undefinedYet := ""
+	for f := e.fr; f != nil; f = f.Parent {
+		if a := localAlloc(f.Fn, name); a != nil {
+			if av, ok := f.Vals[a]; ok {
 				el := derefType(a.Type())
 				if av.Cell != nil {
-					t, _ := u.cellLoad(e.fr, av.Cell)
+					t, _ := u.cellLoad(f, av.Cell)
 					return EVal{T: t, Ty: el}
 				}
 				if _, isSt := isStruct(el); isSt {
@@ -491,13 +495,15 @@ func (e *Env) ident(name string) EVal {
 				}
 				return EVal{T: u.load(e.st, av.T, el), Ty: el}
 			}
-			efail("local %q is not yet defined on this path", name)
+			if undefinedYet == "" {
+				undefinedYet = name
+			}
+			continue
 		}
 		// free variable of a closure: its binding is an address
-		for i, fv := range e.fr.Fn.FreeVars {
+		for _, fv := range f.Fn.FreeVars {
 			if fv.Name() == name {
-				bv := e.fr.Vals[fv]
-				_ = i
+				bv := f.Vals[fv]
 				el := derefType(fv.Type())
 				if bv.Cell != nil {
 					efail("free variable %q bound to a cell", name)
@@ -505,6 +511,15 @@ func (e *Env) ident(name string) EVal {
 				return EVal{T: u.load(e.st, bv.T, el), Ty: el}
 			}
 		}
+		// parameters of an enclosing frame that were not spilled to a local
+		if f != e.fr {
+			if pv, ok := f.Params[name]; ok {
+				return EVal{T: pv.T, Ty: f.paramTypes[name]}
+			}
+		}
+	}
+	if undefinedYet != "" {
+		efail("local %q is not yet defined on this path", name)
 	}
 	// a variable of an enclosing function that this function literal does not capture:
 	// the literal cannot depend on it, so for the literal it is an arbitrary value
